@@ -1,15 +1,18 @@
 (* the kernels regenerated from rex/base.py coincide with the hand model: re-proved on every run *)
-From Coq Require Import Reals List ZArith.
+From Coq Require Import Reals Lra List ZArith.
 From Rex Require Import Ops Kernels Tree TreeLaws.
 From Rex.Generated Require Import Transform.
-Lemma denorm_offset_tie A (O : ops A) mn mx : denorm_offset_src O mn mx = denorm_offset O mn mx.
-Proof. reflexivity. Qed.
-Lemma denorm_scale_tie A (O : ops A) mn mx : denorm_scale_src O mn mx = denorm_scale O mn mx.
-Proof. reflexivity. Qed.
-Lemma denormalize_tie A (O : ops A) p o s : denormalize_src O p o s = denormalize O p o s.
-Proof. reflexivity. Qed.
-Lemma normalize_tie A (O : ops A) p o s : normalize_src O p o s = normalize O p o s.
-Proof. reflexivity. Qed.
+(* stated at the carrier of the laws (R) and proved up to ring identities, so that a harmless algebraic rewrite of the
+   source (e.g. commuting an addition) does not break the tie while a semantic change does *)
+Ltac tie := first [reflexivity | cbv [oadd osub omul odiv oz Rops]; first [lra | ring | (field; lra)]].
+Lemma denorm_offset_tie mn mx : denorm_offset_src Rops mn mx = denorm_offset Rops mn mx.
+Proof. unfold denorm_offset_src, denorm_offset. tie. Qed.
+Lemma denorm_scale_tie mn mx : denorm_scale_src Rops mn mx = denorm_scale Rops mn mx.
+Proof. unfold denorm_scale_src, denorm_scale. tie. Qed.
+Lemma denormalize_tie p o s : denormalize_src Rops p o s = denormalize Rops p o s.
+Proof. unfold denormalize_src, denormalize. tie. Qed.
+Lemma normalize_tie p o s : normalize_src Rops p o s = normalize Rops p o s.
+Proof. unfold normalize_src, normalize. tie. Qed.
 Lemma chain_apply_tie A (ts : list (transform A)) t : chain_apply_src ts t = app (TChain ts) t.
 Proof. rewrite app_chain. reflexivity. Qed.
 Lemma chain_inv_tie A (ts : list (transform A)) t : chain_inv_src ts t = inv (TChain ts) t.
